@@ -216,6 +216,19 @@ func (e *Ev) evGhostCall(x *ast.CallExpr) Val {
 		quantSeq++
 		j := fmt.Sprintf("j!%d", quantSeq)
 		return VBool{fmt.Sprintf("(exists ((%s Int)) (and (<= 0 %s) (< %s %s) (= (select %s (+ %s %s)) %s)))", j, j, j, cs.L, cs.B, cs.O, j, c)}
+	case "fields":
+		// fields(s): the value strings.Fields(s) returns (uninterpreted; see assumed.spec)
+		fx.useSeq = true
+		fx.specUsed["fields_n"] = true
+		sq := e.seqArg(arg(0), x)
+		return VStrs{B: "(fields_b " + sq + ")", O: "(fields_o " + sq + ")", L: "(fields_l " + sq + ")", N: "(fields_n " + sq + ")"}
+	case "sameslice":
+		a, ok1 := arg(0).(VStrs)
+		b, ok2 := arg(1).(VStrs)
+		if !ok1 || !ok2 {
+			e.unsupp(x, "sameslice needs two []string")
+		}
+		return VBool{sAnd(sEq(a.B, b.B), sEq(a.O, b.O), sEq(a.L, b.L), sEq(a.N, b.N))}
 	case "isnil":
 		switch a := arg(0).(type) {
 		case VErr:
@@ -336,7 +349,16 @@ func (e *Ev) callSpecFunc(sf *SpecFunc, x *ast.CallExpr) Val {
 			if !ok {
 				e.unsupp(x, "spec func %s: argument %d must be a string view", sf.Name, i+1)
 			}
+			if sv.Lit != nil && sv.B == "lit!" {
+				sv = e.fx.strLit(*sv.Lit)
+			}
 			ts = append(ts, sv.B, sv.O, sv.L)
+		case "strs":
+			sv, ok := v.(VStrs)
+			if !ok {
+				e.unsupp(x, "spec func %s: argument %d must be a []string", sf.Name, i+1)
+			}
+			ts = append(ts, sv.B, sv.O, sv.L, sv.N)
 		default:
 			e.unsupp(x, "spec param type %s", p.Type)
 		}
@@ -360,6 +382,9 @@ func (e *Ev) callSpecFunc(sf *SpecFunc, x *ast.CallExpr) Val {
 
 // specFuncDef renders a spec function as SMT and reports the spec functions / languages it uses.
 func (p *Prog) specFuncDef(sf *SpecFunc) (def string, uses map[string]bool, langs map[string]bool, useSeq bool) {
+	if sf.Prerendered != "" {
+		return sf.Prerendered, map[string]bool{}, map[string]bool{}, false
+	}
 	fx := &FuncCtx{prog: p, counts: map[string]int{}, trusted: map[string]bool{}, langsUsed: map[string]bool{}, specUsed: map[string]bool{}}
 	var ps []string
 	bound := map[string]Val{}
@@ -367,6 +392,11 @@ func (p *Prog) specFuncDef(sf *SpecFunc) (def string, uses map[string]bool, lang
 		if pa.Type == "str" {
 			ps = append(ps, fmt.Sprintf("(%s_b (Array Int Int)) (%s_o Int) (%s_l Int)", pa.Name, pa.Name, pa.Name))
 			bound[pa.Name] = VStr{B: pa.Name + "_b", O: pa.Name + "_o", L: pa.Name + "_l"}
+			continue
+		}
+		if pa.Type == "strs" {
+			ps = append(ps, fmt.Sprintf("(%s_sb (Array Int (Array Int Int))) (%s_so (Array Int Int)) (%s_sl (Array Int Int)) (%s_n Int)", pa.Name, pa.Name, pa.Name, pa.Name))
+			bound[pa.Name] = VStrs{B: pa.Name + "_sb", O: pa.Name + "_so", L: pa.Name + "_sl", N: pa.Name + "_n"}
 			continue
 		}
 		ps = append(ps, fmt.Sprintf("(%s %s)", pa.Name, specSort(pa.Type)))
@@ -389,6 +419,10 @@ func (p *Prog) specFuncDef(sf *SpecFunc) (def string, uses map[string]bool, lang
 		for _, pa := range sf.Params {
 			if pa.Type == "str" {
 				ss = append(ss, sortArr, sortInt, sortInt)
+				continue
+			}
+			if pa.Type == "strs" {
+				ss = append(ss, sortArrArr, sortArr, sortArr, sortInt)
 				continue
 			}
 			ss = append(ss, specSort(pa.Type))
@@ -423,7 +457,7 @@ func (p *Prog) specFuncDef(sf *SpecFunc) (def string, uses map[string]bool, lang
 			hasStr = true
 		}
 	}
-	if hasStr && !sf.Rec && !p.bodyHasQuant(body, fx.specUsed) {
+	if false && hasStr && !sf.Rec && !p.bodyHasQuant(body, fx.specUsed) {
 		// opaque encoding: the application itself is the trigger of quantifiers over positions
 		var sorts, names []string
 		for _, pa := range sf.Params {
